@@ -54,6 +54,11 @@ def prog_case(rng):
     else:
         prog, regs = G.structured_program(rng, size=rng.randint(4, 30), aligned=rng.random() < 0.6, faults=rng.random() < 0.3)
     case = {"kind": "prog", "prog": prog, "regs": regs, "mem": G.init_mem(rng), "max_steps": 400, "via": "asm" if rng.random() < 0.25 else "direct"}
+    if case["via"] == "asm" and rng.random() < 0.6:
+        from ..gen import asm_rv as A
+
+        case["data"] = [d_ for d_ in A.gen_data(rng, 4) if d_["name"] != "zpad_"]
+        case["data_render"] = rng.getrandbits(30) + 1
     if rng.random() < 0.4:
         # the ISA semantics do not depend on the cache configuration: same lockstep comparison with caches on
         # (programs whose accesses stay within one word - crossing accesses are rejected by a data cache, see C03)
@@ -173,7 +178,17 @@ def run_case(prop, case, res):
             # same program through the assembler (the description stays the source of truth)
             from .icache import asm_text
 
-            sim.load_program(asm_text(case["prog"]))
+            text = asm_text(case["prog"])
+            if case.get("data"):
+                # part of the initial memory contents comes from a data segment (the assembler preloads it below
+                # the caches); the preloaded bytes of the case are written on top of it afterwards
+                from ..gen import asm_rv as A
+
+                text = ".data\n" + "\n".join(A.Renderer(case["data_render"]).data_lines(case["data"])) + "\n.text\n" + text
+                _v, img_, _e = A.layout(case["data"])
+                case = dict(case, mem=dict({str(a_): v_ for a_, v_ in img_.items()}, **case["mem"]))
+                res.count("prog_cases_with_data_segment")
+            sim.load_program(text)
             res.count("prog_cases_via_assembler")
         else:
             install_program(sim, case["prog"])
